@@ -33,14 +33,7 @@ def err_kind(v, depth=3):
 
 def new_compiler(eng):
     """a Compiler as the real constructor builds it (every field, including ones a later version adds)"""
-    c = compiler_value(eng)
-    names = eng.tdef("Compiler", "struct")[1][2]
-    g = lambda f: c.fields[names.index(f)]
-    try:
-        f = eng.find(short="Compiler::new")
-    except Unmodelled:
-        return c
-    return models.deref(eng.call_fn(f, [g("pparams"), g("config"), g("cursor")]))
+    return compiler_value(eng)
 
 
 def resolve(ctx, comp, tx, cap):
